@@ -1446,6 +1446,15 @@ for _fam, _tn, _note in (
     ('G-dct', 'dictlit', 'dict displays with identifier keys written as `dict(k=v)` and the other way round'),
     ('G-ect', 'earlycont', 'a loop body ending in `if c: <block>` written as `if not c: continue` + block'),
     ('G-rot', 'reordertop', 'module-level functions moved behind the classes'),
+    ('G-ora', 'orassign', '`t = a or b` written as `t = a` / `if not t: t = b`'),
+    ('G-sxc', 'splitexcept', '`except (A, B):` written as two handlers with the same body'),
+    ('G-rtn', 'retnone', '`return` written as `return None` and the other way round'),
+    ('G-elr', 'elseremove', 'the else of an `if` whose body ends in return / raise / continue / break removed, its statements following the if'),
+    ('G-ela', 'elseadd', 'the statements after an `if` whose body ends in return / raise / continue / break moved into an else'),
+    ('G-c2l', 'comp2loop', '`x = [e for v in it]` written as `x = []` and an appending loop'),
+    ('G-wtr', 'whiletrue', '`while c:` written as `while True:` / `if not c: break`'),
+    ('G-elp', 'elsepass', '`else: pass` added to every if that has no else'),
+    ('G-ttp', 'testtemp', 'the test of every `if` that is a call bound to a temporary first'),
 ):
     for _i, _m in enumerate(_MODS + [FU]):
         VARIANTS.append(V(f'{_fam}-{_i:02d}', 'E', ALL, _m, None, r'\A.*\Z', _tf.apply(_tn), flags=re.S, note=_note))
